@@ -427,6 +427,8 @@ class Exec:
             return self.truth(self.ev(e['inner'][1], env))
         a = self.ev(e['inner'][0], env)
         b = self.ev(e['inner'][1], env)
+        if op == ',':
+            return b
         ty = e['type']['qualType']
         if isinstance(a, Ptr) or isinstance(b, Ptr):
             if op in ('==', '!='):
